@@ -290,8 +290,13 @@ func (e *Engine) smtText(o *Obligation, wantModel bool) string {
 			b.WriteString(d.text + "\n")
 		}
 	}
+	var pinned []string // heap-quantified axioms to be instantiated at the heap constants of this script (use pinheaps)
 	for i, a := range axioms {
 		if inclAx[i] {
+			if o.Groups["pinheaps"] && strings.HasPrefix(a.text, "(assert (forall ((hb_") {
+				pinned = append(pinned, a.text)
+				continue
+			}
 			b.WriteString(a.text + "\n")
 		}
 	}
@@ -319,6 +324,12 @@ func (e *Engine) smtText(o *Obligation, wantModel bool) string {
 	for _, c := range o.Cmds {
 		b.WriteString(c)
 		b.WriteByte('\n')
+	}
+	if len(pinned) > 0 {
+		sofar := b.String()
+		for _, ax := range pinned {
+			b.WriteString(pinHeaps(ax, sofar) + "\n")
+		}
 	}
 	b.WriteString("(assert (not " + o.Goal + "))\n(check-sat)\n")
 	if wantModel {
@@ -601,4 +612,57 @@ func (x *Exec) refuteEither(st *State, cond string) (condImpossible, negImpossib
 		}
 	}
 	return false, false
+}
+
+// pinHeaps replaces an axiom (forall ((hb_X S) ... other binders) body) by its instances at the heap constants of sort S
+// that the script declares for heap X (H0_X, H_X!n, Hv_X!n). Solvers give up early on quantifiers over array-sorted
+// variables when the script also stores into such arrays; the instances are all that E-matching would have used.
+var heapConstRe = regexp.MustCompile(`\(declare-const ((?:H0|H|Hv)_[A-Za-z0-9_]+?)(![0-9]+)? `)
+
+func pinHeaps(ax, script string) string {
+	const pre = "(assert (forall ("
+	rest := ax[len(pre):]
+	type hb struct{ name string }
+	var hbs []string
+	for strings.HasPrefix(rest, "(hb_") {
+		// one binder: (hb_X <sort>) with a balanced sort
+		depth, i := 0, 0
+		for ; i < len(rest); i++ {
+			if rest[i] == '(' {
+				depth++
+			} else if rest[i] == ')' {
+				depth--
+				if depth == 0 {
+					break
+				}
+			}
+		}
+		binder := rest[1:i]
+		hbs = append(hbs, binder[:strings.Index(binder, " ")])
+		rest = strings.TrimLeft(rest[i+1:], " ")
+	}
+	if len(hbs) == 0 || strings.HasPrefix(rest, ")") {
+		return ax // nothing to pin, or no other bound variable would remain
+	}
+	consts := map[string][]string{}
+	for _, m := range heapConstRe.FindAllStringSubmatch(script, -1) {
+		sid := m[1][strings.Index(m[1], "_")+1:]
+		consts[sid] = append(consts[sid], m[1]+m[2])
+	}
+	insts := []string{pre + rest}
+	for _, h := range hbs {
+		cs := consts[strings.TrimPrefix(h, "hb_")]
+		if len(cs) == 0 {
+			return ax
+		}
+		re := regexp.MustCompile(regexp.QuoteMeta(h) + `\b`)
+		var next []string
+		for _, in := range insts {
+			for _, c := range cs {
+				next = append(next, re.ReplaceAllLiteralString(in, c))
+			}
+		}
+		insts = next
+	}
+	return strings.Join(insts, "\n")
 }
